@@ -13,28 +13,27 @@
    Model/PingFrame.v; its agreement with the RFC reading is in the frame theorems below. *)
 From PV Require Import Base.Prelude Model.Ping Model.PingTrace Model.PingFrame Model.PingScript Model.PingKnown.
 From PV Require Import Model.PingAbs Spec.PingSpec Proofs.PingRefine.
-From PV Require Import Spec.PingRFC Proofs.Ping Proofs.PingIff Proofs.PingMore Proofs.PingFrame Proofs.PingBulk Proofs.PingWrap.
+From PV Require Import Spec.PingRFC Proofs.Ping Proofs.PingIff Proofs.PingMore Proofs.PingFrame Proofs.PingBulk.
 Open Scope N_scope.
 
 (* ---------------------------------------------------------------------------------------- *)
-(* C19_iff (partial: under [young], see C19_distinct_refuted).  For every history, every call p
-   and every way of cutting the history at p's Begin (registration) and p's End: p returns nil iff
-   a notification carrying p's own identifier happened between the two — INCLUDING while p was
-   still inside its send — and ErrTimeout iff none did, provided no call is outstanding across
-   65536 handed-out identifiers ([young] in every state; see C19_distinct for why: the code never
-   checks whether an identifier is still in use).  (That End p is p's first return and that its send
-   succeeded follow from the history being well formed: first_return.)  The deadline that counts is
-   the moment the call leaves its select and takes the table lock (End p), which is at or after the
-   timer (Timeout p): a reply that arrives between the two still completes the call. *)
-Theorem C19_iff_partial : forall fx n pre p mid post s,
+(* C19_iff.  For every history, every call p and every way of cutting the history at p's Begin
+   (registration) and p's End: p returns nil iff a notification carrying p's own identifier happened
+   between the two — INCLUDING while p was still inside its send — and ErrTimeout iff none did.  No
+   side condition: since the wrap repair (/repo: icmpRegister skips identifiers that are still in
+   the table, and a call deletes only its own entry) an identifier is never handed to a second call
+   while the first is still waiting on it.  (That End p is p's first return, that its send succeeded
+   and that it was not refused follow from the history being well formed.)  The deadline that
+   counts is the moment the call leaves its select and takes the table lock (End p), which is at or
+   after the timer (Timeout p): a reply that arrives between the two still completes the call. *)
+Theorem C19_iff : forall fx n pre p mid post s,
   n < 65536 ->
   run fx (init n) (pre ++ Begin p :: mid ++ End p :: post) = Ok s ->
-  always fx young (init n) (pre ++ Begin p :: mid ++ End p :: post) ->
   exists i, id_of s p = Some i /\
     (result_of s p = Some RNil <-> In (Notify i) mid) /\
     (result_of s p = Some RTimeout <-> ~ In (Notify i) mid).
 Proof. exact ping_iff. Qed.
-Print Assumptions C19_iff_partial.
+Print Assumptions C19_iff.
 
 (* A call whose send fails returns that error whatever was parsed meanwhile. *)
 Theorem C19_send_error : forall fx n pre p mid post s,
@@ -49,21 +48,15 @@ Example C19_reply_during_send :
 Proof. exact reply_during_send. Qed.
 Print Assumptions C19_reply_during_send.
 
-(* The hypothesis is satisfiable and both outcomes occur: call 1 (id 2) sees only notifications
-   for other identifiers and times out, call 0 (id 1) is completed by its own. *)
+(* Both outcomes occur: call 1 (id 2) sees only notifications for other identifiers and times
+   out, call 0 (id 1) is completed by its own. *)
 Example C19_iff_nonvacuous :
-  exists s, run false init_go ex_history = Ok s /\ always false young init_go ex_history /\
+  exists s, run false init_go ex_history = Ok s /\
             id_of s 1%nat = Some 2 /\ result_of s 1%nat = Some RTimeout /\
             id_of s 0%nat = Some 1 /\ result_of s 0%nat = Some RNil /\
             id_of s 2%nat = Some 3 /\ result_of s 2%nat = None.
 Proof. exact ping_iff_nonvacuous. Qed.
 Print Assumptions C19_iff_nonvacuous.
-
-(* Every history that hands out fewer than 65536 identifiers in total satisfies the hypothesis. *)
-Theorem C19_young_if_few_calls : forall fx n tr,
-  count_begins tr < 65536 -> always fx young (init n) tr.
-Proof. exact few_begins_young. Qed.
-Print Assumptions C19_young_if_few_calls.
 
 (* ---------------------------------------------------------------------------------------- *)
 (* Frames.  [parse_notify f] (Model/PingFrame.v) is what Session.Parse does with the frame f as
@@ -98,79 +91,71 @@ Example C19_frame_nonvacuous :
 Proof. exact frame_agree_nonvacuous. Qed.
 Print Assumptions C19_frame_nonvacuous.
 
-(* C19_foreign (partial: under [young]).  A call in whose window every event is either a parsed
-   frame that is NOT an echo reply for the call's own identifier (reply with another id, echo
-   request, malformed or non-ICMP frame), or no notification at all (timers, events of other
-   calls), returns ErrTimeout. *)
-Theorem C19_foreign_partial : forall fx n pre p mid post s,
+(* C19_foreign.  A call in whose window every event is either a parsed frame that is NOT an echo
+   reply for the call's own identifier (reply with another id, echo request, malformed or non-ICMP
+   frame), or no notification at all (timers, events of other calls), returns ErrTimeout. *)
+Theorem C19_foreign : forall fx n pre p mid post s,
   n < 65536 ->
   run fx (init n) (pre ++ Begin p :: mid ++ End p :: post) = Ok s ->
-  always fx young (init n) (pre ++ Begin p :: mid ++ End p :: post) ->
   (forall e, In e mid ->
      (exists f, e = frame_event f /\ rfc_reply_id f <> id_of s p)
      \/ (forall j, e <> Notify j)) ->
   result_of s p = Some RTimeout.
 Proof. exact ping_foreign. Qed.
-Print Assumptions C19_foreign_partial.
+Print Assumptions C19_foreign.
 
 (* ---------------------------------------------------------------------------------------- *)
-(* C19_distinct.  Identifiers are next0 + (number of earlier Begin events) mod 2^16; the table is
-   not consulted.  Exact condition for two calls to share an identifier, and distinctness of the
-   calls that wait at the same time when the state is young. *)
-Theorem C19_id_rule : forall fx n tr s q pg, n < 65536 -> run fx (init n) tr = Ok s ->
-  pget (pings s) q = Some pg -> p_id pg = (n + p_seq pg) mod 65536 /\ p_seq pg < cnt s.
-Proof. exact id_rule. Qed.
-Print Assumptions C19_id_rule.
+(* C19_distinct.  icmpRegister hands out the first identifier from table.id on (mod 2^16) that is
+   not in the table; with all 65536 identifiers in the table it returns an error instead (decided:
+   fail, do not block under the lock).  The loop terminates exactly because the table has fewer
+   than 65536 entries (C19_alloc_terminates: never out of fuel in a reachable state).  Hence, in
+   every reachable state, calls that are outstanding and not yet woken have pairwise distinct
+   identifiers.  (A call that has been woken but has not yet returned may share its identifier
+   with a newer call; that is harmless since a call deletes only its own entry: C19_iff.) *)
+Theorem C19_alloc_fresh : forall fx s p s', Inv s -> step fx s (Begin p) = Ok s' ->
+  table_full (tbl s) = false ->
+  exists i, id_of s' p = Some i /\ tget (tbl s) i = None /\ tget (tbl s') i = Some p /\ waiting s' p = true.
+Proof. exact begin_fresh. Qed.
+Print Assumptions C19_alloc_fresh.
 
-Theorem C19_ids_equal_exact : forall fx n tr s q1 q2 pg1 pg2, n < 65536 -> run fx (init n) tr = Ok s ->
-  pget (pings s) q1 = Some pg1 -> pget (pings s) q2 = Some pg2 ->
-  (p_id pg1 = p_id pg2 <-> p_seq pg1 mod 65536 = p_seq pg2 mod 65536).
-Proof. exact ids_equal_exact. Qed.
-Print Assumptions C19_ids_equal_exact.
+Theorem C19_alloc_full : forall fx s p s', step fx s (Begin p) = Ok s' -> table_full (tbl s) = true ->
+  result_of s' p = Some RBusy /\ tbl s' = tbl s /\ next s' = next s.
+Proof. exact begin_full. Qed.
+Print Assumptions C19_alloc_full.
 
-Theorem C19_distinct_partial : forall fx n tr s q1 q2 pg1 pg2,
-  n < 65536 -> run fx (init n) tr = Ok s -> young s ->
+Theorem C19_alloc_terminates : forall fx n tr, n < 65536 -> run fx (init n) tr <> Fuel.
+Proof. exact run_no_fuel. Qed.
+Print Assumptions C19_alloc_terminates.
+
+Theorem C19_distinct : forall fx n tr s q1 q2 pg1 pg2,
+  n < 65536 -> run fx (init n) tr = Ok s ->
   q1 <> q2 -> pget (pings s) q1 = Some pg1 -> pget (pings s) q2 = Some pg2 ->
-  outstanding pg1 = true -> outstanding pg2 = true -> p_id pg1 <> p_id pg2.
+  outstanding pg1 = true -> outstanding pg2 = true -> p_recv pg1 = false -> p_recv pg2 = false ->
+  p_id pg1 <> p_id pg2.
 Proof. exact distinct_run. Qed.
-Print Assumptions C19_distinct_partial.
+Print Assumptions C19_distinct.
 
-(* Without [young] the statements fail, and "fewer than 65536 calls outstanding" is NOT enough:
-   Begin 0 | Sent 0 | 65535 calls whose send fails (BulkFail 65535) | Begin 1 | Sent 1 | Notify 1 |
-   Timeout 0 | End 0 is a well-formed history; only calls 0 and 1 are ever outstanding, both are
-   handed identifier 1; the reply for identifier 1 is parsed while call 0 waits, completes call 1,
-   and call 0 returns ErrTimeout.  (Key ping_id_wrap_collision; the harness runs exactly this
-   history on the real code and the observation is compared with the model.) *)
-Theorem C19_distinct_refuted :
+(* The history that used to collide (recorded finding ping_id_wrap_collision, repaired): call 0
+   waits, the identifier counter goes once around (65535 failed calls), call 1 starts: it is handed
+   identifier 2, not 1, and the reply for identifier 1 completes call 0. *)
+Example C19_wrap_repaired :
   exists s, run true init_go wrap_history = Ok s /\
-    id_of s 0%nat = Some 1 /\ id_of s 1%nat = Some 1 /\
-    In (Notify 1) wrap_mid /\ result_of s 0%nat = Some RTimeout /\
-    (exists pg, pget (pings s) 1%nat = Some pg /\ p_recv pg = true /\ p_phase pg = Waiting).
-Proof. exact wrap_collision. Qed.
-Print Assumptions C19_distinct_refuted.
+    id_of s 0%nat = Some 1 /\ id_of s 1%nat = Some 2 /\
+    result_of s 0%nat = Some RNil /\ result_of s 1%nat = Some RTimeout /\ tbl s = [].
+Proof. exact wrap_repaired. Qed.
+Print Assumptions C19_wrap_repaired.
 
-Theorem C19_wrap_not_young :
-  exists s, run true init_go [Begin 0%nat; Sent 0%nat true; BulkFail 65535; Begin 1%nat] = Ok s /\
-            known_C19_wrap s = true.
-Proof. exact wrap_not_young. Qed.
-Print Assumptions C19_wrap_not_young.
-
-(* The compressed event is sound: BulkFail k leaves the same table, next identifier, counter and
-   other calls as k pairs (Begin j; Sent j false) with fresh call numbers. *)
+(* The compressed event is sound: BulkFail k leaves the same table, next identifier and other
+   calls as k pairs (Begin j; Sent j false) with fresh call numbers. *)
 Theorem C19_bulk_sound : forall k j0 s sb,
-  next s < 65536 -> N.of_nat k <= 65536 -> (forall x, In x (keys (tbl s)) -> x < 65536) ->
+  Inv s -> table_full (tbl s) = false -> N.of_nat k <= 65536 ->
   (forall p, (j0 <= p)%nat -> pget (pings s) p = None) ->
   step true s (BulkFail (N.of_nat k)) = Ok sb ->
   exists s', run true s (fails j0 k) = Ok s' /\
-    tbl s' = tbl sb /\ next s' = next sb /\ cnt s' = cnt sb /\
+    tbl s' = tbl sb /\ next s' = next sb /\
     (forall p, (p < j0)%nat -> pget (pings s') p = pget (pings sb) p).
 Proof. exact bulk_sound. Qed.
 Print Assumptions C19_bulk_sound.
-
-(* the class is decidable: a state is young unless [known_C19_wrap] says otherwise *)
-Theorem C19_young_unless_known : forall s, known_C19_wrap s = false -> young s.
-Proof. exact not_known_wrap_young. Qed.
-Print Assumptions C19_young_unless_known.
 
 (* ---------------------------------------------------------------------------------------- *)
 (* C19_each_own.  A notification changes only the call that owns the table entry of that
@@ -227,12 +212,12 @@ Proof. exact empty_when_idle. Qed.
 Print Assumptions C19_empty_when_idle.
 
 (* The table is exactly the set of calls that wait and have not been woken. *)
-Theorem C19_table_exact_partial : forall fx n tr s, n < 65536 -> run fx (init n) tr = Ok s ->
-  always fx young (init n) tr -> (fx = true \/ known_C19_sendfail tr = false) ->
+Theorem C19_table_exact : forall fx n tr s, n < 65536 -> run fx (init n) tr = Ok s ->
+  (fx = true \/ known_C19_sendfail tr = false) ->
   forall i q, tget (tbl s) i = Some q <->
     exists pg, pget (pings s) q = Some pg /\ outstanding pg = true /\ p_recv pg = false /\ p_id pg = i.
 Proof. exact table_exact. Qed.
-Print Assumptions C19_table_exact_partial.
+Print Assumptions C19_table_exact.
 
 Example C19_no_leak_nonvacuous :
   exists s, known_C19_sendfail ex_trace = false /\ run false init_go ex_trace = Ok s /\
@@ -242,18 +227,18 @@ Print Assumptions C19_no_leak_nonvacuous.
 
 (* ---------------------------------------------------------------------------------------- *)
 (* Refinement.  Spec/PingSpec.v is the property as a table-free reference machine (calls, marks,
-   outcomes; no table, no counter, no channels).  Every well-formed young history of the model is,
+   outcomes; no table, no counter, no channels).  Every well-formed history of the model is,
    event by event ([abs_trace]: Begin p -> SBegin p id, Sent p false -> SFail p, Notify i ->
    SReply i, End p -> SEnd p, everything else invisible), a run of the reference machine ending in
    the abstraction of the model's state: same calls, same identifiers, same marks, same results.
    With C19_frame_agree (Notify i <-> the frame is an echo reply for i) this makes the spec column
    of the correspondence run (Extract/D19.v spec_obs) a theorem, not only a per-case comparison. *)
-Theorem C19_refines_partial : forall fx n tr s, n < 65536 ->
-  run fx (init n) tr = Ok s -> always fx young (init n) tr ->
+Theorem C19_refines : forall fx n tr s, n < 65536 ->
+  run fx (init n) tr = Ok s ->
   (fx = true \/ known_C19_sendfail tr = false) ->
   srun [] (abs_trace fx (init n) tr) = Some (absst s).
 Proof. exact refine_run. Qed.
-Print Assumptions C19_refines_partial.
+Print Assumptions C19_refines.
 
 Theorem C19_result_abs : forall s p,
   option_map c_out (sget (absst s) p) = option_map (fun pg => abs_out (p_phase pg)) (pget (pings s) p).
@@ -261,12 +246,12 @@ Proof. exact result_abs. Qed.
 Print Assumptions C19_result_abs.
 
 (* the table has exactly as many entries as the reference says are needed *)
-Theorem C19_sizes_agree_partial : forall fx n tr s, n < 65536 ->
-  run fx (init n) tr = Ok s -> always fx young (init n) tr ->
+Theorem C19_sizes_agree : forall fx n tr s, n < 65536 ->
+  run fx (init n) tr = Ok s ->
   (fx = true \/ known_C19_sendfail tr = false) ->
   entries (absst s) = size s.
 Proof. exact sizes_agree. Qed.
-Print Assumptions C19_sizes_agree_partial.
+Print Assumptions C19_sizes_agree.
 
 Example C19_refine_nonvacuous :
   exists s, run false init_go ex_history = Ok s /\
